@@ -27,6 +27,10 @@ CLAIMED = {
             "op_machine_climb: a shift-reduce machine whose decisions follow the documented relation builds the precedence-climbing tree for all operator sequences; resolve_documented_partial: resolveConflicts yields that relation except for @right (known finding K1, negation proved on the calc cell). Compiled expression parsers over random operator tables are compared with precedence climbing; deviations are accepted only when explained by K1.",
             TB + " Partial: @right is a recorded known finding.",
             "Lean 4 theorem (operator-precedence machine = precedence climbing) + correspondence", "§7 C05"),
+    "C06": ("proof",
+            "assign_ok_iff (the model of AssignActions accepts exactly the packages the property describes, relative to go/types' assignability/identity relations), assign_binding_sound, assign_diag_names, assign_no_panic, stack_invariant/values_flow (every action argument is the stack value, never a substituted zero). The model is compared with the real codegen.Generate on random typed packages (named/unnamed/interface/pointer/generic/imported types, 13 binding-layout faults); accepted packages are compiled and run with id-tagged values.",
+            TB + " The Go type system is a parameter: assignable/identical matrices come from go/types itself. 'Compiles' is observed, not proved.",
+            "Lean 4 theorems on the binding model + differential correspondence with codegen.Generate + compile-and-run oracle", "§7 C06"),
     "C07": ("proof",
             "all_effective_frag/token, runActions_mode_stack, mode_stack_discipline, accum_prefix over the model of PushRune/simplelexer for all tables satisfying wfModes and all inputs; wfModes and the model are tied to every emitted lexer; expected action pairs (mode actions in written order, terminal last) are checked by the table validator.",
             TB, "Lean 4 invariants over the lexer runtime model + validators + correspondence", "§7 C07"),
@@ -43,6 +47,14 @@ CLAIMED = {
     "C11": ("proof",
             "progress, lexAll_terminates, conservation (segments partition the input), no_oob for all tables satisfying wfModes and all inputs; K3 (rule matching the empty string) and K5 (accumulated text dropped at EOF) are recorded known findings with kernel-checked negative witnesses.",
             TB + " Partial: K3, K5.", "Lean 4 termination/conservation theorems over the lexer runtime model + correspondence", "§7 C11"),
+    "C12": ("other",
+            "Lean: totality/no-panic theorems for the text→value helpers reachable from grammar text (unescape, hexToRune, fixLiteral, precedence conversion) and corollaries of the no-panic theorems of the other properties; a regenerated inventory of every panic / assert / unchecked assertion / non-constant index site in /repo compared with a committed classification (proved / guarded / internal-invariant); structured + byte-level fuzzing of the real CLI in subprocesses (exit 0 ⇒ three files that compile; exit ≠ 0 ⇒ a diagnostic; never a trace, never a hang).",
+            "Not a proof of the universal claim: go/packages, Jet, gofmt and the OS are outside any Lean model. The static premise (site inventory) and fuzzing are checks, the theorems cover the enumerated grammar-text sites. Known findings K6 (stack overflow at ~3M nested parentheses) and K7 (macro doubling blow-up).",
+            "Lean 4 theorems on enumerated panic sites + regenerated fact extractor + CLI fuzzing", "§7 C12"),
+    "C13": ("other",
+            "Lean: the order-independence arguments the code relies on for all lists (sort_perm, fold_set_perm, heap_perm, normalize_perm, pick_source_ignores_generated, imports_alias_deterministic); a regenerated inventory of every range over a built-in map with a mechanical classification (sorted-after / insert-only / lookup-only) compared with a committed list; dynamic: same spec generated in fresh processes, other working directories and over stale output of the same and of a different grammar, bytes and --report compared.",
+            "That the Go code depends on map order only through the listed sites is a checked static premise, not a theorem; Jet/gofmt determinism is observed.",
+            "Lean 4 order-independence theorems + regenerated map-range inventory + repeated generation", "§7 C13"),
     "C14": ("translation_validation",
             "Exhaustive: the four directories with checked-in generated code are regenerated with the generator built from the working tree and compared byte for byte; the checked-in tables additionally pass the Lean validators against the grammar/rules in the same directory.",
             "Finite statement about the working tree; Lean validators supply the semantic half.", "regeneration + byte comparison + Lean validators", "§7 C14"),
@@ -53,6 +65,13 @@ CLAIMED = {
     "C16": ("proof",
             "erasure (presence of _onBounds changes nothing else), bounds_inv, on_bounds_calls for arbitrary tables, inputs and fuel over the model of parse(); the model's bounds log is compared with compiled parsers defining _onBounds on every run.",
             TB, "Lean 4 invariants over the parser runtime model + correspondence", "§7 C16"),
+    "C17": ("proof",
+            "analyze_nil_iff (the model of the four front-end passes accepts exactly the well-formed specifications, WellFormed written from the property text), diag_in_decl, single_fault (29 fault injectors at any position / file / mode), wellFormedB_decides. The model is compared with the real front end on random multi-file specifications and every injector (kind and line of each diagnostic).",
+            TB, "Lean 4 theorems on the analysis model + differential correspondence with the real front end", "§7 C17"),
+    "C18": ("other",
+            "Lean: interleave_independent and its instantiation with the real runtime models (any interleaving of N parser/lexer instances over shared immutable tables gives each instance its solo trace); checked premise: may-alias analysis of the generated files (only the table variables are package-level, nothing writes through them or their aliases) compared with a committed inventory; support: mixed packages run concurrently under -race and compared with sequential runs.",
+            "The Go memory model and the race detector's completeness are not modelled; the premise is a static check of generated code.",
+            "Lean 4 schedule-independence theorem + static shared-state inventory + race-detector runs", "§7 C18"),
     "C19": ("proof",
             "Numbering model theorems (EOF=0, ERROR=1, dense, injective, declaration order, ??? outside) + correspondence with the const block / _TokenToString emitted for random multi-file specs; accept parameters and row keys go through the table validators.",
             TB, "Lean 4 theorems on the numbering model + correspondence", "§7 C19"),
